@@ -225,10 +225,12 @@ fn c05_statistics_ops_delegates_harmonic_concrete() {
     let h = Harmonic { recip_space: arith_from_parts_f64(1.75, 1.3125, 3) }; // data 1, 2, 4 (reciprocals 1, 1/2, 1/4)
     assert!(<Harmonic<f64> as StatisticsOps<f64>>::sample_count(&h) == 3 && h.sample_count() == 3);
     let (own_mean, own_sem) = (h.sample_mean(), h.sample_sem());
-    assert!(<Harmonic<f64> as StatisticsOps<f64>>::sample_mean(&h).to_bits() == own_mean.to_bits());
-    assert!(<Harmonic<f64> as StatisticsOps<f64>>::sample_sem(&h).to_bits() == own_sem.to_bits());
+    // (agreement to 1e-9 relative, not bit for bit: a trait method that recomputes the same figure in another order is fine)
+    let close = |a: f64, b: f64| (a - b).abs() <= 1e-9 * b.abs();
+    assert!(close(<Harmonic<f64> as StatisticsOps<f64>>::sample_mean(&h), own_mean), "StatisticsOps::sample_mean of a Harmonic state is not its harmonic mean");
+    assert!(close(<Harmonic<f64> as StatisticsOps<f64>>::sample_sem(&h), own_sem), "StatisticsOps::sample_sem of a Harmonic state is not H^2 se(1/x)");
     // distinguishing: the wrapper's figures are not the inner state's
-    assert!(own_mean != h.recip_space.sample_mean() && own_sem != h.recip_space.sample_sem());
+    assert!(!close(own_mean, h.recip_space.sample_mean()) && !close(own_sem, h.recip_space.sample_sem()));
     let mut g = h;
     assert!(<Harmonic<f64> as StatisticsOps<f64>>::append(&mut g, 0.0).is_err() && g == h, "the trait's append must validate like the inherent one");
     kani::cover!(true);
